@@ -524,7 +524,7 @@ def run_om(ctx):
                 b.flush()
         b.flush()
         # 3b. timestamp presence mixed inside groups: every family type, every sample position, both orders, all three forms
-        for i in range((16 if quick else 160) * wide):
+        for i in range((48 if quick else 480) * wide):
             d = omgen.gen_doc(rng, types=[omgen.TYPES[i % 8]], nfam=1) if i % 4 else \
                 omgen.gen_doc(rng, types=[omgen.TYPES[(i // 4) % 8], omgen.TYPES[(i // 4 + 3) % 8]], nfam=2)
             leg = rng.random() < 0.25
